@@ -187,12 +187,34 @@ var errNoRest = errors.New("processor goroutines did not come to rest within the
 
 var goHeader = regexp.MustCompile(`^goroutine \d+ \[([^\],]+)`)
 
-func blockedState(s string) bool {
+// blockedBlock decides whether one goroutine of the processor is parked at one of the places
+// where it can legitimately rest. The wait reason alone is not enough: a goroutine that starts
+// a GC cycle inside an allocation (append in the callback, make in the clock) parks with reason
+// "semacquire" on a runtime semaphore - possibly the one runtime.Stack itself holds - and is
+// anything but at rest. So the reason must fit the top visible frame (runtime frames are elided
+// in the dump):
+//
+//	select        in processLoop            the loop's second select
+//	chan receive  in (*vclock).pass         held at a seam (Now, NewTimer, callback)
+//	chan send     in (*Processor).Close     Close waiting for the running token
+//	semacquire / sync.WaitGroup.Wait  inside sync.(*WaitGroup).Wait   Close's deferred wg.Wait
+func blockedBlock(state string, blk []byte) bool {
+	top := blk
+	if i := bytes.IndexByte(blk, '\n'); i >= 0 {
+		top = blk[i+1:]
+		if j := bytes.IndexByte(top, '\n'); j >= 0 {
+			top = top[:j]
+		}
+	}
 	switch {
-	case strings.HasPrefix(s, "chan receive"), strings.HasPrefix(s, "chan send"),
-		strings.HasPrefix(s, "select"), strings.HasPrefix(s, "semacquire"),
-		strings.HasPrefix(s, "sync.WaitGroup.Wait"), strings.HasPrefix(s, "sync.Cond.Wait"):
-		return true
+	case strings.HasPrefix(state, "select"):
+		return bytes.Contains(top, []byte(".processLoop("))
+	case strings.HasPrefix(state, "chan receive"):
+		return bytes.Contains(top, []byte("(*vclock).pass("))
+	case strings.HasPrefix(state, "chan send"):
+		return bytes.Contains(top, []byte(".Close("))
+	case strings.HasPrefix(state, "semacquire"), strings.HasPrefix(state, "sync.WaitGroup.Wait"):
+		return bytes.Contains(blk, []byte("sync.(*WaitGroup).Wait("))
 	}
 	return false
 }
@@ -213,7 +235,7 @@ func scanStacks() (busy, loopAlive bool) {
 			continue
 		}
 		m := goHeader.FindSubmatch(blk)
-		if m == nil || !blockedState(string(m[1])) {
+		if m == nil || !blockedBlock(string(m[1]), blk) {
 			busy = true
 		}
 		if bytes.Contains(blk, []byte(".processLoop(")) {
